@@ -227,4 +227,41 @@ def programs():
                                               SET(V("i"), B("+", V("i"), L(1)))]),
                  P({"k": "len", "e": V("xs")}), P(IX(V("xs"), -1)), P(IX(V("xs"), 0)), SET(IX(V("xs"), -6), L(-1, "i64")), P(IX(V("xs"), 0)),
                  P(STR("before")), P(IX(V("xs"), V("i"))), P(IX(V("xs"), B("+", V("i"), L(1)))), P(STR("not reached"))]}))
+
+    # optionals: none / some, coalescing, tests printed directly (no intermediate binding), optional fields,
+    # optional parameters and returns, copies of structs holding optionals
+    NONE = {"k": "none"}
+
+    def SOME(e):
+        return {"k": "some", "e": e}
+
+    def COAL(e, d):
+        return {"k": "coal", "e": e, "d": d}
+
+    def ISNONE(e, neg=False):
+        return {"k": "isnone", "e": e, "neg": neg}
+    out.append(("optional_print", {"types": [{"name": "Rec", "fields": [{"n": "A", "ty": "u8"}, {"n": "O", "ty": "i64?"}, {"n": "Z", "ty": "u16"}]}], "funcs": {
+        "pick": FN(["f"], ["bool"], "i64?", [IF(V("f"), [LET("x", "i64", L(-77, "i64")), RET(SOME(V("x")))]), RET(NONE)]),
+        "orzero": FN(["o"], ["i64?"], "i64", [LET("z", "i64", L(0, "i64")), RET(COAL(V("o"), V("z")))])},
+        "main": [LET("d", "i64", L(5, "i64")), LET("o", "i64?", NONE), LET("p", "i64?", SOME(L(4, "i64"))),
+                 P(ISNONE(V("o"))), P(ISNONE(V("p"))), P(ISNONE(V("p"), True)), P(COAL(V("o"), V("d"))), P(COAL(V("p"), V("d"))),
+                 SET(V("o"), SOME(L(9000000000, "i64"))), P(COAL(V("o"), V("d"))), P(ISNONE(V("o"))),
+                 SET(V("p"), NONE), P(COAL(V("p"), V("d"))), P(ISNONE(V("p"), True)),
+                 LET("r", "Rec", S(A=L(200, "u8"), O=NONE, Z=L(60000, "u16"))),
+                 P(F(V("r"), "A")), P(ISNONE(F(V("r"), "O"))), P(F(V("r"), "Z")),
+                 SET(F(V("r"), "O"), SOME(L(-1, "i64"))), P(F(V("r"), "A")), P(COAL(F(V("r"), "O"), V("d"))), P(F(V("r"), "Z")),
+                 LET("c", "Rec", V("r")), SET(F(V("r"), "O"), NONE), P(COAL(F(V("c"), "O"), V("d"))), P(COAL(F(V("r"), "O"), V("d"))),
+                 LET("g1", "i64?", CALL("pick", {"k": "bool", "v": True})), LET("g2", "i64?", CALL("pick", {"k": "bool", "v": False})),
+                 P(COAL(V("g1"), V("d"))), P(COAL(V("g2"), V("d"))), P(CALL("orzero", V("g1"))), P(CALL("orzero", V("g2"))),
+                 P({"k": "len", "e": STR("four")})]}))
+
+    # by-value fixed-array and large-integer parameters: stores in the callee stay in the callee
+    out.append(("byvalue_array_param", {"types": [], "funcs": {
+        "bump": FN(["p"], ["[3]i32"], "i32", [SET(IX(V("p"), 0), L(126)), SET(IX(V("p"), 2), B("+", IX(V("p"), 2), L(1))),
+                                                RET(B("+", IX(V("p"), 0), IX(V("p"), 2)))]),
+        },
+        "main": [LET("v", "[3]i32", A(L(18), L(35), L(52))), P(CALL("bump", V("v"))), P(IX(V("v"), 0)), P(IX(V("v"), 1)), P(IX(V("v"), 2))]}))
+    out.append(("byvalue_wide_param", {"types": [], "funcs": {
+        "wide": FN(["w"], ["i128"], "i128", [SET(V("w"), B("+", V("w"), L(1, "i128"), "i128")), RET(V("w"))])},
+        "main": [LET("b", "i128", L(170141183460469231731687303715884105726, "i128")), P(CALL("wide", V("b"))), P(V("b"))]}))
     return out
